@@ -37,6 +37,8 @@ func scenariosFor(prop string, thorough bool) []*scenario {
 		return c14Scenarios(thorough)
 	case "C03":
 		return c03Scenarios(thorough)
+	case "C13":
+		return c13Scenarios(thorough)
 	}
 	return nil
 }
